@@ -370,7 +370,13 @@ def m_concat_empty_slice(case, what):
     return st > 0 and len(range(s, e, st)) == 0
 
 
+def m_concat_negstep(case, what):
+    return (case.get('kind') == 'concat' and case['head'][0] == 's' and (case['head'][3] or 1) < 0
+            and 'unsupported' in what)
+
+
 MATCHERS = {
+    'c05_concat_negative_step_slice': m_concat_negstep,
     'c05_concat_scalar_tail_index': m_concat_scalar_tail,
     'c05_concat_empty_tail_selection': m_concat_empty_tail,
     'c05_concat_empty_slice_across_parts': m_concat_empty_slice,
